@@ -205,6 +205,30 @@ def _range_bounds(r):
     return None, None
 
 
+def fold_term(sym, t, is_hole, value):
+    """t with the sub-terms selected by is_hole replaced by `value`, literal operations folded (sym.binop / casts / not)"""
+    if is_hole(t):
+        return value
+    k = t[0]
+    if k == "bin":
+        return sym.binop(t[1], fold_term(sym, t[2], is_hole, value), fold_term(sym, t[3], is_hole, value))
+    if k == "un":
+        x = fold_term(sym, t[2], is_hole, value)
+        if t[1] == "not" and x[0] == "lit" and isinstance(x[1], bool):
+            return ("lit", not x[1])
+        if t[1] == "neg" and x[0] == "lit" and isinstance(x[1], int):
+            return ("lit", -x[1])
+        return ("un", t[1], x)
+    if k == "cast":
+        x = fold_term(sym, t[1], is_hole, value)
+        if x[0] == "lit" and isinstance(x[1], int) and not isinstance(x[1], bool):
+            return ("lit", S.wrap_int(x[1], t[2]))
+        return ("cast", x, t[2])
+    if k == "copy":
+        return fold_term(sym, t[1], is_hole, value)
+    return t
+
+
 def check_floor(ctx, F, cfg):
     TRUNC_W, SKIP_W, TRUNCATE, FLOOR, PRED = names(F)
     """template `floor` on the path summaries of floor_char_boundary: returns (ok, covered) where covered maps the spans of the
@@ -268,11 +292,17 @@ def check_floor(ctx, F, cfg):
     #  boundary met going down from index is the largest one <= index)
     if any(p.loops for p in paths):
         ICB = "core::str::<impl str>::is_char_boundary"
-        ok = len(clamp) == 1 and not ub and all(guard_of(p) in (True, False) for p in live)
+        # either an explicit clamp branch (`if index >= len { return len }`) or a clamped start (`index.min(s.len())`: s.len() is a
+        # boundary, so the loop is not entered for index >= len)
+        clamped_start = not clamp and not ub and all(guard_of(p) is None for p in live)
+        ok = clamped_start or (len(clamp) == 1 and not ub and all(guard_of(p) in (True, False) for p in live))
         need("stepback|guard", ok, "the guard is no longer `index >= s.len()` (clamp) / `index < s.len()` (search): %s" % [[S.show_atom(a) for a in p.atoms] for p in live][:3])
         if not ok:
             return False, covered
-        need("clamp-result", is_len(clamp[0].result), "when index >= len the result is %s, expected s.len()" % S.show(clamp[0].result)[:60])
+        if clamped_start:
+            search = list(live)
+        else:
+            need("clamp-result", is_len(clamp[0].result), "when index >= len the result is %s, expected s.len()" % S.show(clamp[0].result)[:60])
         n_exit = n_step = 0
         for p in search:
             ent = [ev for ev in p.trace if ev[0] == "enter"]
@@ -281,7 +311,11 @@ def check_floor(ctx, F, cfg):
             lid, _nm, init, lv = ent[0][2][0]
             if init is not None and init[0] == "copy":
                 init = init[1]      # `let mut b = index`: an integer copied by value
-            need("stepback|starts-at-index", init == Ix, "the search starts at %s, not at index" % S.show(init)[:40])
+            if clamped_start:
+                is_min = init is not None and init[0] == "call" and init[1].split("::")[-1] == "min" and len(init[2]) == 2 and ((init[2][0] == Ix and is_len(init[2][1])) or (init[2][1] == Ix and is_len(init[2][0])))
+                need("stepback|starts-at-index", is_min, "the search starts at %s, not at min(index, s.len())" % S.show(init or ("unk", 0, "?"))[:40])
+            else:
+                need("stepback|starts-at-index", init == Ix, "the search starts at %s, not at index" % S.show(init)[:40])
             tests = [a for a in p.atoms if a[0] == "true" and a[1] == ("call", ICB, (Sx, lv), a[1][3] if len(a[1]) > 3 else None)]
             others = [a for a in p.atoms if a not in tests and not (a[0] == "true" and a[1][0] == "bin" and (is_len(a[1][2]) or is_len(a[1][3])))]
             if not need("stepback|test", len(tests) == 1 and not others, "an iteration decides on more than `s.is_char_boundary(b)`: %s" % [S.show_atom(a) for a in p.atoms][:3]):
@@ -316,7 +350,13 @@ def check_floor(ctx, F, cfg):
     # the same search written over absolute positions: (lower ..= index).rev().find(|&i| pred(bytes[i])) -- the first hit going
     # down from index is the last boundary in the window
     rev_find = None
+    found = None
     if r is not None and r[0] == "proj" and r[2] == S.SOME and r[1][0] == "call" and r[1][1].endswith("::find") and len(r[1][2]) == 2:
+        found = r[1]
+    elif r is not None and r[0] == "call" and r[1] == S.O + "unwrap_or" and len(r[2]) == 2 and r[2][1] == ("lit", 0) and r[2][0][0] == "call" and r[2][0][1].endswith("::find") and len(r[2][0][2]) == 2:
+        found = r[2][0]       # `.unwrap_or(0)`: a safe fallback that is never taken (the window contains a boundary)
+    if found is not None:
+        r = ("proj", found, S.SOME, 0)
         it = r[1][2][0]
         if it[0] == "call" and it[1].endswith("Iterator::rev") and len(it[2]) == 1 and it[2][0][0] == "call" and it[2][0][1].endswith("RangeInclusive::<Idx>::new") and len(it[2][0][2]) == 2:
             rev_find = (it[2][0][2][0], it[2][0][2][1], r[1][2][1])
@@ -329,25 +369,33 @@ def check_floor(ctx, F, cfg):
         need("window-size", K + 1 >= 4, "the search window has %d positions; a UTF-8 character can be 4 bytes long, so the boundary may lie outside the window (undefined behaviour in unwrap_unchecked)" % (K + 1))
         need("window", upper == Ix, "the window does not end at index (inclusive): %s" % S.show(upper)[:60])
         pf = F.fn(PRED)
-        if need("predicate-anchor", pf is not None and len(pf["params"]) == 1 and pf["inputs"] == ["u8"] and clos[0] == "closure" and clos[1] in sym.closures, "anchor missing: is_utf8_char_boundary(u8) / the search predicate is not a closure"):
-            probe = ("unk", -2, "position")
-            body = sym.apply_closure(clos, [probe])
-            if body is None:
-                # the predicate indexes the byte slice (an event of this analysis): evaluate it on a scratch copy of the search path
-                scratch = search[0].fork()
-                scratch.done = scratch.result = None
-                res = [t for s2, t in sym.inline_closure(clos, [probe], scratch) if s2.done is None]
-                body = res[0] if len(res) == 1 else None
-            okb = body is not None and body[0] == "call" and body[1] == PRED and len(body[2]) == 1 and body[2][0][0] == "index" and is_bytes(body[2][0][1]) and body[2][0][2] == probe
-            need("predicate-call", okb, "the search predicate is not `|i| is_utf8_char_boundary(bytes[i])`: %s" % S.show(body)[:80])
+        probe = ("unk", -2, "position")
+        body = sym.apply_closure(clos, [probe]) if clos[0] == "closure" and clos[1] in sym.closures else None
+        if body is None and clos[0] == "closure" and clos[1] in sym.closures:
+            # the predicate indexes the byte slice (an event of this analysis): evaluate it on a scratch copy of the search path
+            scratch = search[0].fork()
+            scratch.done = scratch.result = None
+            res = [t for s2, t in sym.inline_closure(clos, [probe], scratch) if s2.done is None]
+            body = res[0] if len(res) == 1 else None
+        byte_at = lambda t: t[0] == "index" and is_bytes(t[1]) and t[2] == probe
+        core_pred = body is not None and body[0] == "call" and body[1] == "core::str::<impl str>::is_char_boundary" and body[2] == (Sx, probe)
+        user_pred = body is not None and body[0] == "call" and pf is not None and body[1] == PRED and len(body[2]) == 1 and byte_at(body[2][0])
+        formula = body is not None and not core_pred and not user_pred and any(byte_at(x) for x in S.subterms(body))
+        if core_pred:
+            need("predicate-call", True, "")      # core's str::is_char_boundary(position): the boundary test itself
+        elif need("predicate-anchor", user_pred and len(pf["params"]) == 1 and pf["inputs"] == ["u8"] or formula,
+                  "the search predicate is neither `|i| is_utf8_char_boundary(bytes[i])`, `|i| s.is_char_boundary(i)` nor a formula over bytes[i]: %s" % S.show(body or ("unk", 0, "?"))[:80]):
             bad = None
             acc = set()
             for b in range(256):
-                try:
-                    ps = S.Sym(F, pf, param_terms={H.pat_bindings(pf["params"][0])[0][0]: ("lit", b)}).run()
-                except S.TooManyPaths:
-                    ps = []
-                vals = {p.result for p in ps}
+                if user_pred:
+                    try:
+                        ps = S.Sym(F, pf, param_terms={H.pat_bindings(pf["params"][0])[0][0]: ("lit", b)}).run()
+                    except S.TooManyPaths:
+                        ps = []
+                    vals = {p.result for p in ps}
+                else:
+                    vals = {fold_term(sym, body, byte_at, ("lit", b))}
                 if len(vals) == 1 and next(iter(vals)) in (("lit", True), ("lit", False)):
                     if next(iter(vals))[1]:
                         acc.add(b)
@@ -355,13 +403,13 @@ def check_floor(ctx, F, cfg):
                     bad = (b, [S.show(v)[:40] for v in vals])
                     break
             if bad is not None:
-                need("predicate-formula", False, "boundary predicate is not a closed byte formula (byte 0x%02x gives %s)" % bad, where=pf["sp"])
+                need("predicate-formula", False, "boundary predicate is not a closed byte formula (byte 0x%02x gives %s)" % bad, where=(pf or fn)["sp"])
             else:
                 must = set(range(0x00, 0x80)) | set(range(0xC2, 0xF5))
                 mustnot = set(range(0x80, 0xC0))
                 need("predicate-set", must <= acc and not (acc & mustnot),
                      "is_utf8_char_boundary accepts %s, rejects %s: it must accept every ASCII and lead byte and no continuation byte" %
-                     (sorted("0x%02x" % b for b in acc & mustnot)[:6], sorted("0x%02x" % b for b in must - acc)[:6]), where=pf["sp"])
+                     (sorted("0x%02x" % b for b in acc & mustnot)[:6], sorted("0x%02x" % b for b in must - acc)[:6]), where=(pf or fn)["sp"])
             # the index inside the predicate: lower <= i <= index < len
             cnode = sym.closures[clos[1]][0]
             for x in H.walk(cnode["body"]):
@@ -437,13 +485,13 @@ def check_floor(ctx, F, cfg):
                 bad = (b, [S.show(v)[:40] for v in vals])
                 break
         if bad is not None:
-            need("predicate-formula", False, "boundary predicate is not a closed byte formula (byte 0x%02x gives %s)" % bad, where=pf["sp"])
+            need("predicate-formula", False, "boundary predicate is not a closed byte formula (byte 0x%02x gives %s)" % bad, where=(pf or fn)["sp"])
         else:
             must = set(range(0x00, 0x80)) | set(range(0xC2, 0xF5))
             mustnot = set(range(0x80, 0xC0))
             need("predicate-set", must <= acc and not (acc & mustnot),
                  "is_utf8_char_boundary accepts %s, rejects %s: it must accept every ASCII and lead byte and no continuation byte" %
-                 (sorted("0x%02x" % b for b in acc & mustnot)[:6], sorted("0x%02x" % b for b in must - acc)[:6]), where=pf["sp"])
+                 (sorted("0x%02x" % b for b in acc & mustnot)[:6], sorted("0x%02x" % b for b in must - acc)[:6]), where=(pf or fn)["sp"])
             ctx.sample({"cfg": cfg, "boundary_predicate_accepts": "0x00-0x7f,0xc0-0xff" if acc == set(range(0, 0x80)) | set(range(0xC0, 0x100)) else sorted(acc)[:40], "K": K})
     # the panic-capable constructs the template accounts for
     for e in search[0].effects:
@@ -537,6 +585,13 @@ def check_truncate(ctx, F, cfg, floor_present):
     return push_ok, covered
 
 
+def leaf_ty(sym, e):
+    """the type a Deserialize::deserialize call decodes; a type parameter of an expanded generic helper is replaced by what the
+    call site instantiates it with"""
+    from . import wire as W_
+    return W_.erase_lt(sym.type_arg(e, (e.node.get("targs") or [""])[0]))
+
+
 def is_string_from(node):
     """`String::<N>::from(&str)` of heapless 0.7 (also through .into()): panics when the text has more than N bytes"""
     if not isinstance(node, dict) or node.get("k") not in ("call", "mcall"):
@@ -603,8 +658,8 @@ def check_skip(ctx, F, cfg, fn):
         ctx.violation("C13|skip|paths", "too many paths", cfg=cfg)
         return
     ds = {e.term: e for p in paths for e in p.effects if e.tcallee == DESER}
-    if not ctx.oblige("C13|skip|only-inner-error", len(ds) == 1 and (next(iter(ds.values())).node.get("targs") or [""])[0] == "&str",
-                      "skip_if_too_long does not decode exactly one text string (%s)" % [(e.node.get("targs") or [""])[0] for e in ds.values()], cfg=cfg, where=fn["sp"]):
+    if not ctx.oblige("C13|skip|only-inner-error", len(ds) == 1 and leaf_ty(sym, next(iter(ds.values()))) == "&str",
+                      "skip_if_too_long does not decode exactly one text string (%s)" % [leaf_ty(sym, e) for e in ds.values()], cfg=cfg, where=fn["sp"]):
         return
     D = next(iter(ds.values()))
     text = sym.proj(D.term, S.OK, 0)
@@ -691,7 +746,7 @@ def check_trunc_wrapper(ctx, F, cfg, fn):
         ctx.violation("C13|trunc-wrapper|paths", "too many paths", cfg=cfg)
         return
     ds = {e.term: e for p in paths for e in p.effects if e.tcallee == DESER}
-    good = len(ds) == 1 and (next(iter(ds.values())).node.get("targs") or [""])[0] == "core::option::Option<&str>"
+    good = len(ds) == 1 and leaf_ty(sym, next(iter(ds.values()))) == "core::option::Option<&str>"
     why = "it does not decode exactly one Option<&str>"
     if good:
         D = next(iter(ds.values()))
@@ -756,7 +811,7 @@ def check_icon(ctx, F, cfg, fn):
     except S.TooManyPaths:
         return False
     ds = {e.term: e for p in paths for e in p.effects if e.tcallee == DESER}
-    if len(ds) != 1 or (next(iter(ds.values())).node.get("targs") or [""])[0] != "&str":
+    if len(ds) != 1 or leaf_ty(sym, next(iter(ds.values()))) != "&str":
         return False
     D = next(iter(ds.values()))
     if inner_error_only(sym, paths, D):
